@@ -230,7 +230,7 @@ def run(ctx):
     from chameleon import PageTemplate
     from chameleon.exc import TemplateError
     rng = ctx.rng
-    n = 400 if ctx.quick else 6000
+    n = 1000 if ctx.quick else 6000
     E = '\x01E\x01'
     for i in range(n):
         # ---- invalid expression planted at a site
@@ -323,9 +323,9 @@ def run(ctx):
         elif res is not None:
             ctx.violation('lang-%s-%s' % (lk, res[0]), 'language error %s in %r: %s' % (lk, full, res[1]),
                           {'kind': 'lang', 'src': full, 'cfg': lcfg})
-    layer_smoke(ctx, 300 if ctx.quick else 5000)
-    layer_garbage_arguments(ctx, 400 if ctx.quick else 8000)
-    layer_file_versions(ctx, 25 if ctx.quick else 400)
+    layer_smoke(ctx, 700 if ctx.quick else 5000)
+    layer_garbage_arguments(ctx, 1000 if ctx.quick else 8000)
+    layer_file_versions(ctx, 60 if ctx.quick else 400)
 
 
 
@@ -495,11 +495,42 @@ def layer_garbage_arguments(ctx, n):
             res = 'crash'
             msg = '%s: %s' % (type(e).__name__, str(e).split('\n')[0][:80])
             key = 'garbage-argument-crash-' + type(e).__name__
-            if isinstance(e, AssertionError) and 'tal:case' in src and 'metal:define-macro' in src and 'tal:switch' in src:
+            if isinstance(e, AssertionError) and case_cut_off_from_its_switch(src):
                 key = 'compiler-crash-case-in-macro-below-switch'
             ctx.violation(key, 'compiling %r raised %s' % (src, msg), {'kind': 'valid', 'src': src, 'cfg': {}})
         ctx.cover('garbage-outcome', res)
         ctx.case(key=('garbage', res, tuple(sorted(a.split('=')[0] for a in attrs.split('" ')))), nontrivial=True)
+
+
+def case_cut_off_from_its_switch(src):
+    """Structural classifier of the known mechanism (shared with C09): some tal:case element is, or lies inside, a
+    metal:define-macro / metal:fill-slot element that stands below (or on) the element of the nearest tal:switch - a
+    boundary of the generated code separates the case from its switch."""
+    stack = []
+    for m in re.finditer(r'<(/?)([\w:.-]+)((?:[^>"\']|"[^"]*"|\'[^\']*\')*?)(/?)>', src):
+        close, tag, attrs, selfclose = m.groups()
+        if close:
+            while stack and stack.pop()[0] != tag:
+                pass
+            continue
+        names = set(re.findall(r'([\w:-]+)\s*=', attrs))
+        if tag.startswith('tal:'):
+            names |= {'tal:' + n for n in names if ':' not in n}
+        if tag.startswith('metal:'):
+            names |= {'metal:' + n for n in names if ':' not in n}
+        entry = (tag, names)
+        if 'tal:case' in names:
+            boundary = bool(names & {'metal:define-macro', 'metal:fill-slot'})
+            for t, ns in reversed(stack):
+                if 'tal:switch' in ns:
+                    if boundary:
+                        return True
+                    break
+                if ns & {'metal:define-macro', 'metal:fill-slot'}:
+                    boundary = True
+        if not selfclose:
+            stack.append(entry)
+    return False
 
 
 def smoke_gen(rng, depth):
@@ -539,7 +570,7 @@ def layer_smoke(ctx, n):
             key = 'compiler-crash-' + type(e).__name__
             if isinstance(e, AttributeError) and "'_fields'" in msg and 'tal:on-error' in src and re.search(r'tal:attributes="[^"]*\bd\b', src):
                 key = 'compiler-crash-on-error-with-dictionary-attributes'
-            elif isinstance(e, AssertionError) and 'tal:case' in src and 'metal:define-macro' in src and 'tal:switch' in src:
+            elif isinstance(e, AssertionError) and case_cut_off_from_its_switch(src):
                 key = 'compiler-crash-case-in-macro-below-switch'
             elif isinstance(e, KeyError) and 'Undefined namespace prefix' in msg:
                 res = 'undefined-prefix'
